@@ -88,6 +88,7 @@ harnesses! {
         (h_misc::c08_accumulating_runtime_b, 7),
         (h_misc::c15_key_same_addr, 7),
         (h_misc::c15_key_diff_addr, 7),
+        (h_misc::c15_key_returning, 7),
         (h_misc::c16_broadcast_drain, 7),
     ],
     stubbed: [
